@@ -152,7 +152,84 @@ func runOne(base string, idx, rep int, p program) {
 	cons.Wait()
 }
 
+// multi: several Watchers at work at the same time, each used by nobody but its own reader and consumer -
+// on the same directory, on directories of their own, with bursts of distinctly named entries. Whatever the
+// race detector reports here is shared between Watchers (C14); the names each Watcher delivers are compared
+// with what was created as well.
+func multi(base string, rounds int) (runs int, wrong []string) {
+	for r := 0; r < rounds; r++ {
+		root := filepath.Join(base, fmt.Sprintf("m%d", r))
+		os.MkdirAll(filepath.Join(root, "shared"), 0o755)
+		const K = 6
+		const N = 60
+		var ws []*fsnotify.Watcher
+		got := make([]map[string]bool, K)
+		var cons sync.WaitGroup
+		for k := 0; k < K; k++ {
+			os.MkdirAll(filepath.Join(root, fmt.Sprintf("own%d", k)), 0o755)
+			w, err := fsnotify.NewWatcher()
+			if err != nil {
+				continue
+			}
+			w.Add(filepath.Join(root, "shared"))
+			w.Add(filepath.Join(root, fmt.Sprintf("own%d", k)))
+			ws = append(ws, w)
+			m := map[string]bool{}
+			got[k] = m
+			cons.Add(2)
+			go func() {
+				defer cons.Done()
+				for e := range w.Events {
+					if e.Has(fsnotify.Create) {
+						m[e.Name] = true
+					}
+				}
+			}()
+			go func() {
+				defer cons.Done()
+				for range w.Errors {
+				}
+			}()
+		}
+		var wg sync.WaitGroup
+		for k := -1; k < K; k++ {
+			wg.Add(1)
+			go func(k int) {
+				defer wg.Done()
+				dir := filepath.Join(root, "shared")
+				if k >= 0 {
+					dir = filepath.Join(root, fmt.Sprintf("own%d", k))
+				}
+				for i := 0; i < N; i++ {
+					os.WriteFile(filepath.Join(dir, fmt.Sprintf("k%d-entry-%03d-%s", k, i, strings.Repeat("x", i%17))), nil, 0o644)
+				}
+			}(k)
+		}
+		wg.Wait()
+		time.Sleep(50 * time.Millisecond) // let the readers drain (what is missing is not judged, only what is wrong)
+		for _, w := range ws {
+			w.Close()
+		}
+		cons.Wait()
+		for k, m := range got {
+			for name := range m {
+				rel, _ := filepath.Rel(root, name)
+				okShared := strings.HasPrefix(rel, "shared/k-1-entry-")
+				okOwn := strings.HasPrefix(rel, fmt.Sprintf("own%d/k%d-entry-", k, k))
+				_, serr := os.Lstat(name)
+				if !(okShared || okOwn) || serr != nil {
+					wrong = append(wrong, fmt.Sprintf("watcher %d delivered Create %q, which was never created there", k, rel))
+				}
+			}
+		}
+		os.RemoveAll(root)
+		runs++
+	}
+	return
+}
+
 func main() {
+	mode := flag.String("mode", "programs", "programs | multi")
 	reps := flag.Int("reps", 3, "repetitions per program")
 	only := flag.Int("only", -1, "run one program only")
 	list := flag.Bool("list", false, "print the programs")
@@ -174,6 +251,16 @@ func main() {
 	}
 	defer os.RemoveAll(base)
 	t0 := time.Now()
+	if *mode == "multi" {
+		n, wrong := multi(base, *reps)
+		for i, w := range wrong {
+			if i < 5 {
+				fmt.Println("WRONG-NAME:", w)
+			}
+		}
+		fmt.Printf("vrace: multi-watcher rounds=%d wrong_names=%d wall=%.1fs\n", n, len(wrong), time.Since(t0).Seconds())
+		return
+	}
 	runs := 0
 	var mu sync.Mutex
 	var wg sync.WaitGroup
